@@ -12,7 +12,7 @@ import re
 import zlib
 
 import common
-from props.c18 import MARKUP_ALPHA, CSS_ALPHA, STRUCT_M, STRUCT_C
+from props.c18 import MARKUP_ALPHA, CSS_ALPHA, STRUCT_M, STRUCT_C, FRAG_M, FRAG_C, _sub
 
 MARKUP_CFGS = [
     ('html', {}),
@@ -49,10 +49,6 @@ BIGREP = re.compile(r'\*\d{3,}')
 QUICK = [False]
 
 
-def _sub(s):
-    return s.replace('~', 'é')
-
-
 def _chunk(items):
     import copy
     import emmet
@@ -64,7 +60,7 @@ def _chunk(items):
         src = _sub(s)
         calls = []
         cfgs = MARKUP_CFGS if lang == 'markup' else CSS_CFGS
-        if QUICK[0] and len(src) > 3:
+        if QUICK[0] and len(src) > 2:
             # quick tier: longer strings run under every second configuration (which half is chosen by a hash of the string)
             h = zlib.crc32(src.encode())
             cfgs = [c for i, c in enumerate(cfgs) if (i + h) % 2 == 0]
@@ -141,7 +137,7 @@ def run(out):
     quick = out.tier == 'quick'
     QUICK[0] = quick
     out.rule = ('one trace per input string (all strings up to the bound over a 26-symbol markup and a 26-symbol stylesheet alphabet, '
-                'simulated longer structural strings, one-character mutations of the abbreviation literals of the repository tests), '
+                'simulated longer structural strings, all sequences of syntactic fragments up to the bound (Fragments.tla), one-character mutations of the abbreviation literals of the repository tests), '
                 'one event per configuration; non-trivial = the string is not rejected by the parser under the first configuration; '
                 'distinct by (string, language)')
     out.assumptions = ['lorem* is random: only the outcome class is observed', 'each call is limited to 10 s wall clock']
@@ -149,14 +145,27 @@ def run(out):
         ('markup-exhaustive', 'markup', dict(constants={'Alphabet': MARKUP_ALPHA, 'MaxLen': 3 if quick else 4})),
         ('markup-structural', 'markup', dict(constants={'Alphabet': STRUCT_M, 'MaxLen': 10 if quick else 14},
                                              simulate=3 if quick else 45, depth=10 if quick else 14, seed=out.seed)),
+        # every combination of the numbering / repeater symbols (the modifiers after $ and @ only combine at length 4 and more)
+        ('markup-numbering', 'markup', dict(constants={'Alphabet': {"$", "@", "^", "-", "1", "*", "a"}, 'MaxLen': 4 if quick else 6})),
+        # every sequence of syntactic fragments (Fragments.tla): shapes that need six to ten characters
+        ('markup-fragments', 'markup', dict(module='Fragments', constants={'Frags': FRAG_M, 'MaxFrag': 3 if quick else 4})),
+        ('css-fragments', 'css', dict(module='Fragments', constants={'Frags': FRAG_C, 'MaxFrag': 3 if quick else 4})),
         ('css-exhaustive', 'css', dict(constants={'Alphabet': CSS_ALPHA, 'MaxLen': 3 if quick else 4})),
         ('css-structural', 'css', dict(constants={'Alphabet': STRUCT_C, 'MaxLen': 10 if quick else 14},
                                        simulate=3 if quick else 45, depth=10 if quick else 14, seed=out.seed + 1)),
     ]
-    work = []          # (name, lang, strings, TlcResult or None)
-    for name, lang, kw in insts:
-        r = common.run_tlc('Strings', timeout=3000, heap='12g', **kw)
+    work = []          # (name, lang, strings)
+    from concurrent.futures import ThreadPoolExecutor
+
+    def gen(inst):
+        name, lang, kw = inst
+        kw = dict(kw)
+        return common.run_tlc(kw.pop('module', 'Strings'), timeout=3000, heap='6g', workers=6, **kw)
+    with ThreadPoolExecutor(4) as ex:           # the generators are independent TLC runs
+        results = list(ex.map(gen, insts))
+    for (name, lang, kw), r in zip(insts, results):
         strings = sorted(set(v['s'] for v in r.vectors()))
+        r.tagged = {}
         if r.mode == 'simulate':
             strings = common.sample(strings, 6000 if quick else 150000, out.seed, key=str)
         if r.mode == 'bfs':
@@ -177,36 +186,41 @@ def run(out):
         work.append(('test-corpus-mutations-' + lang, lang, sorted(muts)))
         out.parts.append({'instance': 'test-corpus-' + lang, 'literals': len(lits[lang]), 'mutations': len(muts)})
     tid = 0
+    alltraces = []
     for name, lang, strings in work:
         items = []
         for s in strings:
             tid += 1
             items.append((tid, s, lang))
         traces = common.pool_map(_chunk, items, chunk=1000)
-        slim = [{'tid': t['tid'], 'len': t['len'], 'calls': [{'kind': c['kind'], 'pos': c['pos']} for c in t['calls']]} for t in traces]
-        verdicts, r2 = common.validate_traces('Trace_Outcome', slim, heap='12g')
-        ncalls = sum(len(t['calls']) for t in traces)
         kinds = {}
         for t in traces:
+            t['inst'] = name
             for c in t['calls']:
                 kinds[c['kind']] = kinds.get(c['kind'], 0) + 1
-        out.add_tlc(name + '-trace-validation', r2, traces=len(traces), calls=ncalls, outcome_classes=kinds)
-        out.traces += len(traces)
-        out.evaluations += ncalls
-        by = {t['tid']: t for t in traces}
-        for t in traces:
-            if t['calls'] and t['calls'][0]['kind'] == 'str':
-                out.distinct.add((t['src'], lang))
-        for k, v in verdicts.items():
-            if v[0] == 'REJECT':
-                t = by[k]
-                c = t['calls'][v[1] - 1]
-                out.violation('outcome: ' + v[2], {'input': t['src'], 'language': lang, 'configuration': c['cfg'], 'kind': c['kind'],
-                                                   'pos': c['pos'], 'exception': c.get('exception'), 'site': list(c['site']) if c.get('site') else None,
-                                                   'message': c.get('message')})
+        out.parts.append({'instance': name + '-recorded', 'traces': len(traces), 'calls': sum(len(t['calls']) for t in traces), 'outcome_classes': kinds})
+        alltraces.extend(traces)
         sm = sorted(traces, key=lambda t: zlib.crc32(repr((t['src'], lang)).encode()))
         for t in sm[:1]:
             out.sample({'input': t['src'], 'language': lang, 'outcomes': [[c['cfg'], c['kind'], c['pos']] for c in t['calls']][:5]})
+    # one validation run over all recorded traces (batched by validate_traces)
+    slim = [{'tid': t['tid'], 'len': t['len'], 'calls': [{'kind': c['kind'], 'pos': c['pos']} for c in t['calls']]} for t in alltraces]
+    verdicts, r2 = common.validate_traces('Trace_Outcome', slim, heap='12g', batch_events=400000)
+    ncalls = sum(len(t['calls']) for t in alltraces)
+    out.add_tlc('trace-validation', r2, traces=len(alltraces), calls=ncalls)
+    out.traces += len(alltraces)
+    out.evaluations += ncalls
+    by = {t['tid']: t for t in alltraces}
+    for t in alltraces:
+        if t['calls'] and t['calls'][0]['kind'] == 'str':
+            out.distinct.add((t['src'], t['lang']))
+    for k, v in verdicts.items():
+        if v[0] == 'REJECT':
+            t = by[k]
+            c = t['calls'][v[1] - 1]
+            out.violation('outcome: ' + v[2], {'input': t['src'], 'language': t['lang'], 'configuration': c['cfg'], 'kind': c['kind'],
+                                               'pos': c['pos'], 'exception': c.get('exception'), 'site': list(c['site']) if c.get('site') else None,
+                                               'message': c.get('message'), 'instance': t['inst']})
 
 
 def replay(case):
